@@ -679,12 +679,26 @@ func opCommentClearAdd(h *hist) *Event {
 	h.fresh++
 	c := fmt.Sprintf("z%d", h.fresh)
 	ev := &Event{Op: "CommentClearAdd", Args: map[string]interface{}{"node": id, "comment": c}}
+	whole := h.r.Intn(4) == 0
 	guard(ev, func() error {
 		n := h.p.node(id)
 		n.ClearComments()
 		n.AddComment(c)
 		if h.r.Intn(2) == 0 {
 			n.AddComment(c + "b")
+		}
+		// the same on branches: the one above the node, or every branch of the tree
+		for _, e := range h.t.Edges() {
+			if whole || e.Right() == n {
+				e.ClearComments()
+				e.AddComment(c + "e")
+			}
+		}
+		if whole {
+			h.t.ClearNodeComments()
+			for _, m := range h.t.Nodes() {
+				m.AddComment(c + "n")
+			}
 		}
 		return nil
 	})
@@ -726,8 +740,12 @@ func opTwinCommentEdit(h *hist) *Event {
 			n.ClearComments()
 		}
 		n.AddComment(c)
+		clearEdges := h.r.Intn(2) == 0
 		for _, e := range h.b.Edges() {
-			if h.r.Intn(4) == 0 {
+			if h.r.Intn(3) == 0 {
+				if clearEdges {
+					e.ClearComments()
+				}
 				e.AddComment(c)
 			}
 		}
